@@ -50,7 +50,7 @@ PROPS = {
     },
     "C13": {
         "level": "proof",
-        "suites": ["c13_identity", "c13_shared"],
+        "suites": ["c13_identity", "c13_shared", "c13_neighbours"],
         "rule": "pairs of rules: a generated rule and a near-miss of it (permuted targets/sources, a string moved across a section boundary, "
                 "split/merged command lines, leading/trailing whitespace in a command or source, renamed target, added source, two targets merged) "
                 "or an independent rule; strings contain ':' and spaces; plus rules outside the parser's range (empty string, embedded newline). "
@@ -81,7 +81,7 @@ PROPS = {
     },
     "C07": {
         "level": "proof",
-        "suites": ["hist", "crash", "swap", "crash_coarse"],
+        "suites": ["hist", "crash", "swap", "crash_coarse", "epoch"],
         "columns": ["cache"],
         "rule": "histories over the full C01 alphabet (edits, reverts, rule edits incl. invalid rules files, builds, goal builds, cleans, tampered and "
                 "deleted targets, deleted cache entries, deleted ruler directory and parts of it), deterministic and failing commands, serial schedule; "
@@ -100,7 +100,7 @@ PROPS = {
     },
     "C08": {
         "level": "proof",
-        "suites": ["hist", "mixed", "crash"],
+        "suites": ["hist", "mixed", "crash", "epoch"],
         "columns": ["files", "cache"],
         "rule": "same histories and crash points as C07; monitor: the set of contents at ever-declared target paths and in the cache before each build/clean "
                 "is a subset of the set afterwards (and at every crash point outside a command), and no rename by ruler goes over a target or cache "
@@ -212,7 +212,7 @@ PROPS = {
     },
     "C10": {
         "level": "proof",
-        "suites": ["c10_clean_build", "real_c10", "memsys_selftest"],
+        "suites": ["c10_clean_build", "swap", "real_c10", "memsys_selftest"],
         "columns": ["verdict", "cmds", "files", "cache"],
         "rule": "scenarios: generated rule graph (half with pairwise different target contents), sources, optional goal build and edit, full build, optional chmod, clean with a goal "
                 "choice, build with a goal choice; 150 quick / 2000 thorough on the in-memory System compared op by op with the model, and 10 / 120 with the REAL binary and sh "
@@ -278,7 +278,7 @@ PROPS = {
     },
     "C18": {
         "level": "proof",
-        "suites": ["c18_shortcut", "swap", "crash_coarse"],
+        "suites": ["c18_shortcut", "swap", "crash_coarse", "epoch"],
         "columns": ["verdict", "files", "cache", "hist", "table"],
         "rule": "220 quick / 3000 thorough generated histories (alphabet of C01, deterministic commands), half under the fine clock and half under the coarse clock (one tick per "
                 "user action or ruler invocation), each run twice — as is, and with the file-state table erased before every build; verdict and workspace after every build "
@@ -294,10 +294,12 @@ PROPS = {
 
 # round 3 additions to the generation rules
 _R3 = {
-    "C08": " Round 3: mixed and hist contain `mv` patterns (a target stashed as t.bak, its source edited, build, the old copy moved back with its old modification time, build).",
+    "C08": " Round 3: mixed and hist contain `mv` patterns (a target stashed as t.bak, its source edited, build, the old copy moved back with its old modification time, build). Round 4: suite epoch (see C07).",
     "C09": " Round 3: suite dropped — build, clean, the rules file rewritten WITHOUT the rule that produced a path another rule still reads (the path becomes a plain source that the table and the cache still remember), build: ruler must report the missing source and create nothing.",
     "C10": " Round 3: before the clean, an mv dance: every in-scope target moved aside, the leaves changed, build, the leaves restored, the old copies moved back with their old modification times (the table now remembers NEWER states of other contents for those paths).",
     "C17": " Round 3: a third of the scenarios have a neighbour rule that fails in the same build, so the contradicted rule's history must have been written by a build that failed as a whole.",
+    "C07": " Round 4: suite epoch — the clock starts at 0 and the first thing that happens is the user writing a TARGET path by hand with a value the rules later produce; that file carries modification time 0 (the time of FileState::empty()), is displaced into the cache by the first build and comes back through the recoveries of swap histories; 80 quick / 2000 thorough, both clocks, all monitors, paired runs.",
+    "C18": " Round 4: suite epoch (see C07) with paired runs.",
     "C02": " Round 3: the monitor separates 'an output ruler itself lost' (it was in the cache when the build started, nobody else's target took it, yet the command ran) from the known finding; mixed has mv patterns.",
 }
 for _k, _v in _R3.items():
